@@ -100,20 +100,24 @@ pub fn fresh_with_mask(mask: u16) -> Quantizer {
 /// the same scale configured in one of four different ways (no conversion involved): "any scale" must not depend on
 /// how it was built. 0: one forbid of the complement; 1: one forbid naming all twelve classes with the lowest class of
 /// the scale last (the would-empty rule keeps it), then one allow of the rest; 2: the complement forbidden one class at a
-/// time; 3: forbid-all with the highest class last, then the others allowed one at a time.
+/// time; 3: forbid-all with the highest class last, then the others allowed one at a time; 4 / 5: as 1 / 3 but the class
+/// that is to survive is forbidden beforehand, so that the would-empty rule re-allows a class that was NOT allowed.
 pub fn build_with_mask(mask: u16, variant: u8) -> Quantizer {
     let notes = mask_notes(mask);
     let comp: Vec<u8> = (0..12u8).filter(|n| mask >> n & 1 == 0).collect();
     let mut q = Quantizer::new();
-    match variant % 4 {
+    match variant % 6 {
         0 => return fresh_with_mask(mask),
-        1 | 3 => {
-            let keep = if variant % 4 == 1 { notes[0] } else { *notes.last().unwrap() };
+        1 | 3 | 4 | 5 => {
+            let keep = if variant % 6 == 1 || variant % 6 == 4 { notes[0] } else { *notes.last().unwrap() };
+            if variant % 6 >= 4 {
+                q.forbid(&[Note::from(keep)]);
+            }
             let mut all: Vec<Note> = (0..12u8).filter(|n| *n != keep).map(Note::from).collect();
             all.push(Note::from(keep));
             q.forbid(&all);
             let rest: Vec<Note> = notes.iter().filter(|n| **n != keep).map(|n| Note::from(*n)).collect();
-            if variant % 4 == 1 {
+            if variant % 6 == 1 || variant % 6 == 4 {
                 if !rest.is_empty() {
                     q.allow(&rest);
                 }
@@ -197,7 +201,7 @@ pub fn check_fresh_built(mask: u16, variant: u8, v: f32, c08: bool, c19: bool, s
                 format!(
                     "scale {:?} (configured in way {}): convert({}) -> note {} ({:.6} V, distance {:.6}); the rule gives note {} ({:.6} V, distance {:.6})",
                     mask_notes(mask),
-                    variant % 4,
+                    variant % 6,
                     v,
                     c.note_num,
                     c.note_num as f64 / 12.0,
@@ -556,7 +560,7 @@ pub fn check_scale(mask: u16, inputs: &mut Vec<f32>, c19: bool, stats: &mut Stat
     let mut nt = 0u64;
     for (i, &v) in inputs.iter().enumerate() {
         // the scale is configured in a different one of the four ways for consecutive inputs
-        let r = check_fresh_built(mask, (i % 4) as u8, v, !c19, c19, stats)?;
+        let r = check_fresh_built(mask, (i % 6) as u8, v, !c19, c19, stats)?;
         if !c19 {
             if let Some((pv, pr)) = prev {
                 if r < pr {
